@@ -66,7 +66,8 @@ Inductive binop := BAdd | BSub | BMul | BEMul | BDiv | BPow
 (* references: scalar variable, derivative of a scalar (an independent input), array element
    with a constant subscript x[k], array element inside a for-loop x[i+k], the loop index *)
 Inductive ref := RVar (x : positive) | RDer (x : positive)
-               | RIdx (x : positive) (k : Z) | RLoopIdx (x : positive) (k : Z) | RLoopVar.
+               | RIdx (x : positive) (k : Z) | RLoopIdx (x : positive) (k : Z) | RLoopVar
+               | RAff (x : positive) (a b : Z).      (* x[a*i + b] inside a for-loop, a may be negative or zero *)
 
 Inductive expr :=
 | ENum (q : Qc)
@@ -91,6 +92,7 @@ Definition m_ref (r : ref) (rho : menv) : value :=
   | RIdx x k => VNum (m_arr rho x k)
   | RLoopIdx x k => VNum (m_arr rho x (m_i rho + k))
   | RLoopVar => VNum (z2q (m_i rho))
+  | RAff x a b => VNum (m_arr rho x (a * m_i rho + b))
   end.
 
 Definition m_un (o : unop) (v : value) : option value :=
@@ -216,7 +218,8 @@ Inductive canode := CAdd | CSub | CMul | CDiv | CPow | CLt | CLe | CGt | CGe | C
    (ForLoop.register_indexed_symbol line 72, exitForEquation line 512) at the current
    iteration, where indices = values + k *)
 Inductive casym := SVar (x : positive) | SDer (x : positive)
-                 | SElem (x : positive) (k0 : Z) | SGather (x : positive) (k : Z) | SLoopVar.
+                 | SElem (x : positive) (k0 : Z) | SGather (x : positive) (k : Z) | SLoopVar
+                 | SGatherA (x : positive) (a b : Z).   (* indices = index_expr mapped over the loop values (ForLoop.register_indexed_symbol) *)
 Inductive caexpr :=
 | CConst (q : Qc)
 | CSym (s : casym)
@@ -236,6 +239,7 @@ Definition c_sym (s : casym) (rho : cenv) : Qc :=
   | SElem x k0 => c_arr rho x k0
   | SGather x k => c_arr rho x ((c_i rho + k) - 1)
   | SLoopVar => z2q (c_i rho)
+  | SGatherA x a b => c_arr rho x ((a * c_i rho + b) - 1)
   end.
 
 Definition ca_bin (n : canode) (a b : Qc) : option Qc :=
@@ -379,6 +383,7 @@ Definition tr_ref (r : ref) : casym :=
   | RIdx x k => SElem x (k - 1)                   (* line 899: sl = sl - 1 *)
   | RLoopIdx x k => SGather x k                   (* lines 909-930, 72 *)
   | RLoopVar => SLoopVar                          (* get_component line 953-955 *)
+  | RAff x a b => SGatherA x a b                  (* register_indexed_symbol: F(index_expr) mapped over the values, minus 1 *)
   end.
 
 Section WithTable.
